@@ -518,6 +518,12 @@ def check(model, rep, tier):
                                 'other_assignments': [core.norm(b) for b in bad]},
             line=finit.node.lineno,
             witness='user_requested=False, internal_convert_user_code != recursive')
+  # "top level" is read off the depth of the _Function state stack: every frame a
+  # handler of the functions pass enters must be left on every path, or a later
+  # function is taken for a nested one and gets the callee options
+  from sa import rules_trav
+  rep.rule('OPT-FRAME', 'the state stack that decides "top level" is balanced', floor=1)
+  rules_trav.state_pairing(model, rep, 'OPT-FRAME', [FUNCS])
   fso = model.func(FUNCS, 'FunctionTransformer._function_scope_options')
   fp_ = fso.params()[0]
 
